@@ -22,7 +22,7 @@ pub const RSA4096: [(&str, &str); 2] = [
 pub const RSA_WRONG: [(u32, &str, &str); 4] = [
     (1024, include_str!("../../fixtures/rsa1024.pem"), include_str!("../../fixtures/rsa1024.pub.pem")),
     (2047, include_str!("../../fixtures/rsa2047.pem"), include_str!("../../fixtures/rsa2047.pub.pem")),
-    (2049, include_str!("../../fixtures/rsa2049.pem"), include_str!("../../fixtures/rsa2049.pub.pem")),
+    (2056, include_str!("../../fixtures/rsa2056.pem"), include_str!("../../fixtures/rsa2056.pub.pem")),
     (3072, include_str!("../../fixtures/rsa3072.pem"), include_str!("../../fixtures/rsa3072.pub.pem")),
 ];
 
